@@ -465,3 +465,65 @@ package httpgrpc
 //@   ensures[C12] every_registration_is_visited: calls("(grpchan.HandlerMap).ForEach") == 1
 //@   assert_call[C12] (grpchan.HandlerMap).ForEach : over_the_given_registry: arg0 == reg && isfunc(arg1, "HandleServices.arg#1")
 //@   modifies everything
+
+// ---- public entry points and thin wrappers ----
+//
+//@ func HandleMethod
+//@   loop loop#1 invariant[C12,C14] every_option_so_far_applied_to_the_handler_options: calls("httpgrpc.HandlerOption") == rangeindex + 1
+//@   assert_call[C12,C14] httpgrpc.HandlerOption : applied_to_this_handlers_options: arg0 == &hOpts
+//@   assert_call[C12,C16,C11] handleMethod : for_the_given_service_method_and_interceptor: arg0 == svr && arg1 == serviceName && arg2 == desc && arg3 == unaryInt && arg4 == &hOpts && calls("httpgrpc.HandlerOption") == len(opts)
+//@   ensures[C12,C11] result == lastresult(handleMethod) && calls(handleMethod) == 1
+//@   modifies everything
+//
+//@ func HandleStream
+//@   loop loop#1 invariant[C12,C14] every_option_so_far_applied_to_the_handler_options: calls("httpgrpc.HandlerOption") == rangeindex + 1
+//@   assert_call[C12,C14] httpgrpc.HandlerOption : applied_to_this_handlers_options: arg0 == &hOpts
+//@   assert_call[C12,C16,C11] handleStream : for_the_given_service_stream_and_interceptor: arg0 == svr && arg1 == serviceName && arg2 == desc && arg3 == streamInt && arg4 == &hOpts && calls("httpgrpc.HandlerOption") == len(opts)
+//@   ensures[C12,C11] result == lastresult(handleStream) && calls(handleStream) == 1
+//@   modifies everything
+//
+//@ func NewServer
+//@   ensures[C12] result != nil && fresh(result)
+//@   loop loop#1 invariant[C12,C16] every_option_so_far_applied_once: calls("httpgrpc.ServerOption.apply") == rangeindex + 1
+//@   assert_call[C12,C16] httpgrpc.ServerOption.apply : option_in_order_on_the_new_server: arg0 == opts[rangeindex] && arg1 == &s
+//@   ensures[C12,C16] all_options_applied: calls("httpgrpc.ServerOption.apply") == len(opts)
+//@   modifies everything
+//
+//@ func (serverOptFunc).apply
+//@   ensures[C12,C16] runs_the_option_once_on_the_server: calls("var:fn") == 1
+//@   assert_call[C12,C16] var:fn : arg0 == s
+//@   modifies everything
+//
+//@ func (HandlerOption).apply
+//@   ensures[C14] runs_the_option_once_on_the_servers_handler_options: calls("var:ho") == 1
+//@   assert_call[C14] var:ho : arg0 == &s.opts
+//@   modifies everything
+//
+//@ func (*Server).ServeHTTP
+//@   ensures[C11,C12] dispatches_through_the_servers_own_mux_once: calls("(*http.ServeMux).ServeHTTP") == 1
+//@   assert_call[C11,C12] (*http.ServeMux).ServeHTTP : arg0 == &s.mux && arg1 == w && arg2 == r
+//@   modifies everything
+//
+//@ func (*clientStream).Context
+//@   ensures[C04,C10] result == cs.ctx
+//@   modifies nothing
+//
+//@ func (*serverStream).Context
+//@   ensures[C04,C10] result == s.ctx
+//@   modifies nothing
+//
+//@ func (*serverStream).SetHeader
+//@   ensures[C03] sets_without_sending: calls("(*serverStream).setHeader") == 1 && result == lastresult("(*serverStream).setHeader")
+//@   assert_call[C03] (*serverStream).setHeader : arg0 == s && arg1 == md && !arg2
+//@   modifies s.headersSent, external, maps("http.Header")
+//
+//@ func (*serverStream).SendHeader
+//@   ensures[C03] sets_and_sends: calls("(*serverStream).setHeader") == 1 && result == lastresult("(*serverStream).setHeader")
+//@   assert_call[C03] (*serverStream).setHeader : arg0 == s && arg1 == md && arg2
+//@   modifies s.headersSent, external, maps("http.Header")
+//
+// Header(): blocks until the reader goroutine has seen the reply headers (or failed),
+// then reports what it stored.
+//@ func (*clientStream).Header
+//@   ensures[C03] reports_the_stored_headers_after_waiting: calls("(*sync.WaitGroup).Wait") == 1
+//@   assert_call[C03,C05] (*sync.WaitGroup).Wait : on_the_streams_ready_group: arg0 == &cs.ready
